@@ -321,6 +321,12 @@ def run_export(task):
                 problems.append(f"{len(lines)} exported lines")
             if sum(1 for l in lines if l.startswith("(operators:")) != len(plan):
                 problems.append("not one 'operators:' line per joint action")
+            if len(lines) == 1 + 2 * len(plan) and (not lines[0].startswith("((:init") or any(
+                    not lines[2 + 2 * i].startswith("(:state") for i in range(len(plan)))):
+                problems.append("exported text: the first state must be printed as ':init' and every later one as ':state'")
+            for i, trp in enumerate(trips):
+                if trp.next_state.is_init or trp.previous_state.is_init != (i == 0):
+                    problems.append(f"step {i}: is_init flags pre={trp.previous_state.is_init} post={trp.next_state.is_init}")
             for i in range(1, len(trips)):
                 if trips[i].previous_state is not trips[i - 1].next_state and not (trips[i].previous_state == trips[i - 1].next_state):
                     problems.append(f"step {i}: pre-state is not the preceding post-state")
@@ -448,6 +454,7 @@ def tasks_for(tier, seed):
         [[("take", ["o1", "o2"]), None, None], [None, ("flag", ["o2"]), None]],
         [[("take", ["o1", "o2"]), ("take", ["o2", "o3"]), None], [("drop", ["o1", "o2"]), None, None], [None, None, None]],
         [[("sweep", ["o1"]), None, None], [("flag", ["o1"]), ("charge", ["o2"]), None]],
+        [[None, None, None], [("flag", ["o1"]), None, None]],  # the trajectory opens with a step in which nobody acts
     ]
     for p in plans:
         tasks.append({"kind": "export", "plan": p, "cap": 9})
